@@ -237,13 +237,18 @@ pub fn replay(case: &J) -> CaseResult {
 }
 
 fn random_case(u: &mut Choices, sz: Size) -> CaseResult {
-    let doc = gen_doc(u, &sz);
-    let file = gen_core_file(u, &doc, sz, true, true);
+    // a quarter of the cases: CloudFormation-shaped inputs and a program that captures map keys
+    let captures = u.chance(1, 4);
+    let doc = if captures { gen_cfn_doc(u, &sz) } else { gen_doc(u, &sz) };
+    let mut file = gen_core_file(u, &doc, sz, true, true);
+    if captures {
+        add_capture_idiom(u, &mut file, &doc);
+    }
     let rules = print_file(&file);
     let nin = u.range(1, 4);
     let mut inputs = vec![doc.to_json()];
     for _ in 1..nin {
-        inputs.push(gen_doc(u, &sz).to_json());
+        inputs.push(if captures { gen_cfn_doc(u, &sz).to_json() } else { gen_doc(u, &sz).to_json() });
     }
     let names: BTreeSet<String> = file.rules.iter().map(|r| r.name.clone()).collect();
     let mut exps = vec![];
